@@ -182,13 +182,28 @@ class MirFile:
         """Function object for a call-site callee text such as `evaluator::order_compare`, `Page::<'_>::leaf_lower_bound`,
         `compare_sort_keys`; None for trait-qualified (`<T as Trait>::m`), closures and functions outside the dump."""
         c = callee.strip()
-        if c.startswith("<") or "{closure" in c:
+        if "{closure" in c:
             return None
+        trait_hints = None
+        if c.startswith("<"):
+            # `<Type as Trait>::method` on a crate-local type: resolve by method name + the type's name
+            m = re.match(r"^<(.+) as (.+)>::(\w+)$", c)
+            if not m:
+                return None
+            ty = re.sub(r"<.*>", "", m.group(1)).split("::")[-1].strip("&' ")
+            if not re.match(r"^[A-Z]\w*$", ty):
+                return None
+            trait_hints = [ty]
+            c = m.group(3)
         c = re.sub(r"::<[^<>]*(?:<[^<>]*>[^<>]*)*>", "", c)
         name = c.split("::")[-1]
         cands = [h for h in self.by_name.get(name, []) if "{closure" not in h.split("(")[0]]
         if not cands:
             return None
+        if trait_hints is not None:
+            cands = [h for h in cands if all(re.search(r"\b%s\b" % re.escape(t), h) for t in trait_hints)]
+            if len(cands) != 1:
+                return None
         if len(cands) > 1:
             hints = [seg for seg in c.split("::")[:-1] if seg]
             scored = sorted(((sum(1 for hseg in hints if hseg in h), h) for h in cands), reverse=True)
